@@ -6,7 +6,8 @@ Layer 2: the engine at the granularity "run every token until it parks" between 
 One executable semantics, parametric in `Cfg` — the places where the Go engine is known (or could come)
 to deviate from BPMN token semantics. `Cfg.ideal` is the specification (the token game); the faithful
 configuration is what the code does. Whenever a deviation actually changes behaviour in a run, its name
-is logged in `St.causes`, so a run with no logged cause is a run of the token game (theorem in Props/C01).
+is logged in `St.causes`, so a run with no logged cause is a run of the token game — under an admissible join policy,
+see `Spec/TokenGame` (theorems in Props/C01Conformance).
 
 Tokens (`flow`s in the Go code) carry the numeric id the engine would give them: ids are drawn in the order
 `handleAdditionalSequenceFlow` draws them.
